@@ -31,7 +31,10 @@ type Family struct {
 	Min    []float64
 	LamMin float64
 	Quad   bool // strictly convex quadratic
-	Cx     int  // complexity rank (for "smallest witness first")
+	// sum of |terms| of the VALUE (rounding scale of the value; the scale returned by Pure is
+	// that of the gradient). Only the non-convex ray families define it.
+	VSc func(x []float64) float64
+	Cx  int // complexity rank (for "smallest witness first")
 }
 
 /* tiny AD expression helpers: fresh temporaries, only Add/Sub/Mul/Div/Exp/Log -------------- */
@@ -194,6 +197,9 @@ func MakeFamily(s FamSpec) *Family {
 			return v, []float64{g[0] * d}, sc * math.Max(1, math.Abs(d))
 		}
 		return f
+	}
+	if rf := makeRayFamily(s); rf != nil { // non-convex rays of the line-search family (rays.go)
+		return rf
 	}
 	switch s.Kind {
 	case "quad": // P = n, upper(A) row-major, b
